@@ -1144,11 +1144,13 @@ impl MarkerTree {
         lower: Bound<&Version>,
         upper: Bound<&Version>,
     ) -> MarkerTree {
-        MarkerTree(
-            INTERNER
-                .lock()
-                .simplify_python_versions(self.0, lower, upper),
-        )
+        // Markers are release-only, so are the bounds they are simplified with.
+        let (lower, upper) = (release_only_bound(lower), release_only_bound(upper));
+        MarkerTree(INTERNER.lock().simplify_python_versions(
+            self.0,
+            lower.as_ref(),
+            upper.as_ref(),
+        ))
     }
 
     /// Complexify marker tree by requiring the given Python version range
@@ -1165,11 +1167,13 @@ impl MarkerTree {
         lower: Bound<&Version>,
         upper: Bound<&Version>,
     ) -> MarkerTree {
-        MarkerTree(
-            INTERNER
-                .lock()
-                .complexify_python_versions(self.0, lower, upper),
-        )
+        // Markers are release-only, so are the bounds they are complexified with.
+        let (lower, upper) = (release_only_bound(lower), release_only_bound(upper));
+        MarkerTree(INTERNER.lock().complexify_python_versions(
+            self.0,
+            lower.as_ref(),
+            upper.as_ref(),
+        ))
     }
 
     /// Remove the extras from a marker, returning `None` if the marker tree evaluates to `true`.
@@ -1213,6 +1217,15 @@ impl MarkerTree {
                 _ => None,
             }
         }))
+    }
+}
+
+/// Strips everything but the release segments from a version bound.
+fn release_only_bound(bound: Bound<&Version>) -> Bound<Version> {
+    match bound {
+        Bound::Included(version) => Bound::Included(version.only_release()),
+        Bound::Excluded(version) => Bound::Excluded(version.only_release()),
+        Bound::Unbounded => Bound::Unbounded,
     }
 }
 
